@@ -89,6 +89,7 @@ type callObs struct {
 	Fetches []bool   `json:"fetches,omitempty"`
 	Hbs     []string `json:"hbs,omitempty"`
 	Commits []bool   `json:"commits,omitempty"`
+	Fired   bool     `json:"fired,omitempty"` // the steady-state trigger was pulled before Consume returned
 	Result  string   `json:"result"`
 	Hung    bool     `json:"hung,omitempty"`
 }
@@ -165,6 +166,7 @@ type engine struct {
 	nextG     int64
 	cancel    context.CancelFunc
 
+	setupDone  bool
 	started    map[int64]bool
 	steady     map[int64]bool
 	expect     map[int64]bool
@@ -189,15 +191,6 @@ func (e *engine) closeGroupAsync() {
 	for !sarama.VerifC07GroupClosed(e.group) {
 		time.Sleep(50 * time.Microsecond)
 	}
-}
-
-func (e *engine) behOf(p int64) behSpec {
-	for _, b := range e.call.Beh {
-		if b.P == p {
-			return b
-		}
-	}
-	return behSpec{P: p, Quota: -1, Mark: 0}
 }
 
 func has(l []int64, x int64) bool {
@@ -349,7 +342,11 @@ func (e *engine) install(brokers []*sarama.MockBroker) {
 		}
 		e.co.Fetches = append(e.co.Fetches, ok)
 		id := partID(topic, p)
-		e.add(ev{K: "fetchoff", P: id})
+		fx := ev{K: "fetchoff", P: id, Stored: -1}
+		if o, okk := e.store[id]; okk {
+			fx.Stored = o
+		}
+		e.add(fx)
 		if !ok {
 			return 0, codeFetchErr
 		}
@@ -447,7 +444,7 @@ func (e *engine) checkBarriers() {
 			close(e.allStarted)
 		}
 	}
-	if allT {
+	if allT && e.setupDone {
 		select {
 		case <-e.steadyCh:
 		default:
@@ -458,14 +455,19 @@ func (e *engine) checkBarriers() {
 
 // ---------- handler ----------
 
-type hnd struct{ e *engine }
+type hnd struct {
+	e    *engine
+	call *callSpec
+}
 
 func (h hnd) Setup(s sarama.ConsumerGroupSession) error {
 	e := h.e
 	e.mu.Lock()
 	e.add(ev{K: "setup"})
-	trig := e.call.Trigger
-	ok := e.call.SetupOK
+	e.setupDone = true
+	e.checkBarriers()
+	trig := h.call.Trigger
+	ok := h.call.SetupOK
 	e.mu.Unlock()
 	switch trig {
 	case "ctx-setup":
@@ -484,7 +486,7 @@ func (h hnd) Cleanup(s sarama.ConsumerGroupSession) error {
 	e.mu.Lock()
 	defer e.mu.Unlock()
 	e.add(ev{K: "cleanup"})
-	if !e.call.CleanupOK {
+	if !h.call.CleanupOK {
 		return errCleanup
 	}
 	return nil
@@ -505,7 +507,7 @@ func (h hnd) ConsumeClaim(s sarama.ConsumerGroupSession, c sarama.ConsumerGroupC
 	}
 	x.Oldest, x.Newest = lo, hi
 	e.add(x)
-	b := e.behOf(id)
+	b := h.call.behOf(id)
 	start := init
 	if init == sarama.OffsetNewest {
 		start = hi
@@ -656,7 +658,7 @@ func runCase(cs caseSpec) obs {
 		ctx, cancel := context.WithCancel(context.Background())
 		e.mu.Lock()
 		e.ci, e.call, e.co = i, call, &callObs{}
-		e.joinPhase, e.nJoin = true, 0
+		e.joinPhase, e.nJoin, e.setupDone = true, 0, false
 		e.coords, e.joins, e.syncs = call.Coords, call.Joins, call.Syncs
 		e.fetches, e.commits, e.hbs = call.Fetches, call.Commits, call.Hbs
 		e.hbArmed = call.Trigger == "hb-first"
@@ -673,9 +675,13 @@ func runCase(cs caseSpec) obs {
 			cancel()
 		case "close-before":
 			e.closeGroupAsync()
+			select {
+			case <-e.closeDone:
+			case <-time.After(consumeBound):
+			}
 		}
 		done := make(chan error, 1)
-		go func() { done <- g.Consume(ctx, topics, hnd{e}) }()
+		go func() { done <- g.Consume(ctx, topics, hnd{e, call}) }()
 
 		stopTrig := make(chan struct{})
 		trigDone := make(chan struct{})
@@ -692,6 +698,9 @@ func runCase(cs caseSpec) obs {
 				return
 			case <-time.After(1500 * time.Millisecond):
 			}
+			e.mu.Lock()
+			co.Fired = true
+			e.mu.Unlock()
 			switch call.Trigger {
 			case "ctx-steady":
 				cancel()
